@@ -579,6 +579,19 @@ def _mask_paths(stmts, state, conds, L, out):
             t, v = st.targets[0], st.value
             if isinstance(t, (ast.Tuple, ast.List)):
                 continue    # e.g. rmin, rmax = ...
+            # np.where(C, False, S) == S & ~C ; np.where(C, S, False) == S & C
+            if isinstance(v, ast.Call) and call_name(v) in (
+                    "np.where", "numpy.where") and len(v.args) == 3 and \
+                    not v.keywords:
+                c_, a_, b_ = v.args
+                if isinstance(a_, ast.Constant) and a_.value is False:
+                    v = ast.copy_location(ast.BinOp(
+                        left=b_, op=ast.BitAnd(), right=ast.UnaryOp(
+                            op=ast.Invert(), operand=c_)), v)
+                elif isinstance(b_, ast.Constant) and b_.value is False:
+                    v = ast.copy_location(ast.BinOp(
+                        left=a_, op=ast.BitAnd(), right=c_), v)
+                ast.fix_missing_locations(v)
             tt = norm(t)
             if isinstance(t, ast.Name) or tt == "self.fit_range":
                 vt = canon_text(v)
